@@ -1056,6 +1056,7 @@ class SyncState:  # pylint: disable=too-many-instance-attributes, too-many-publi
         return retval
 
     def storage_delete_tag(self, data_tag):
+        self.data_id.pop(data_tag, None)
         if self._storage:
             storage_dict = self._storage.read_all(data_tag)
             for eid, _ in storage_dict.items():
